@@ -8,7 +8,7 @@ from sa.astx import NotConst, call_attr, call_name, const_eval, dotted, lincmp, 
 from sa.selftest import Mutant, Silent
 from sa.source import class_assigns
 from sa.props._lib_j import (all_paths, asserted_eq, asserted_in, bind_args, catching_handler, clone, edge_asserts,
-    handler_names, names_loaded, node_calls, normal_exits, params, resolve, rsrc, taint)
+    handler_names, names_loaded, body_always_entered, dep, run_sections, node_calls, normal_exits, params, resolve, rsrc, taint)
 
 PROPERTY = "C48"
 CRED = "cred/credentials.py"
@@ -237,12 +237,31 @@ def _escape_rules(ctx, rel, qual, q, seeds, count):
     return f, g, tainted
 
 
-def check(ctx):
-    count = {"raise": 0, "raiser": 0, "index": 0}
-    cls = ctx.cls(CRED, "DigestCredentialFactory")
-    gen = _generator(ctx)
+def field_of(e):
+    """'x' when the (resolved) expression reads field x of a dict: d.get('x') / d['x']."""
+    if isinstance(e, ast.Call) and isinstance(e.func, ast.Attribute) and e.func.attr == "get" and len(e.args) == 1 and isinstance(e.args[0], ast.Constant):
+        return src(e.func.value), e.args[0].value
+    if isinstance(e, ast.Subscript) and isinstance(e.slice, ast.Constant):
+        return src(e.value), e.slice.value
+    return None
 
+
+def _count(S):
+    return S.__dict__.setdefault("count", {"raise": 0, "raiser": 0, "index": 0})
+
+
+def _s_generator(ctx, S):
+    S.gen = _generator(ctx)
+
+
+_DEFAULT_GEN = {"order": ["nonce", "clientip", "time"], "q": QF + "._generateOpaque", "unreadable": True}
+
+
+def _s_verify(ctx, S):
     # ================= _verifyOpaque =================================================================
+    count = _count(S)
+    cls = ctx.cls(CRED, "DigestCredentialFactory")
+    gen = S.gen or _DEFAULT_GEN      # field order of today's generator when the generator itself is unreadable
     qv = QF + "._verifyOpaque"
     fv, gv, _ = _escape_rules(ctx, CRED, "DigestCredentialFactory._verifyOpaque", qv,
                                params(ctx.func(CRED, "DigestCredentialFactory._verifyOpaque"))[1:3], count)
@@ -360,7 +379,12 @@ def check(ctx):
         else:
             ctx.violation("verify/returns-true", where, "_verifyOpaque can fall off its end (returns None): decode() then returns None")
 
+    S.fv, S.P_IP, S.seen, S.ver_digest_tmpl = fv, P_IP, seen, ver_digest_tmpl
+
+
+def _s_agreement(ctx, S):
     # ================= generator / verifier agreement =================================================
+    gen, fv, P_IP, seen, ver_digest_tmpl = dep(S.gen, "_generateOpaque"), dep(S.fv, "_verifyOpaque"), S.P_IP, S.seen, S.ver_digest_tmpl
     qa = QF + "._generateOpaque/_verifyOpaque"
     if "sep1" in seen:
         ctx.check(seen["sep1"] == gen["sep1"], "agreement/opaque-separator", qa + " | digest/key separator",
@@ -402,7 +426,12 @@ def check(ctx):
     ctx.check(ng == nv, "agreement/client-address-normalisation", qa + " | clientip normalisation",
               f"the client address is normalised differently when the opaque is generated ({ng}) and when it is verified ({nv})")
 
+
+
+def _s_decode(ctx, S):
     # ================= decode =========================================================================
+    count = _count(S)
+    cls = ctx.cls(CRED, "DigestCredentialFactory")
     qd = QF + ".decode"
     fd, gd, tainted_d = _escape_rules(ctx, CRED, "DigestCredentialFactory.decode", qd, params(ctx.func(CRED, "DigestCredentialFactory.decode"))[1:2], count)
     pd = params(fd)
@@ -423,14 +452,6 @@ def check(ctx):
             ctx.need(groups is not None, "constant pattern in DigestCredentialFactory._parseparts")
             ctx.check(ok, "escape/regex-arity", ctx.construct(qd, "for <groups> in _parseparts.findall(response)"),
                       f"_parseparts has {groups} groups but the loop unpacks {len(n.target.elts)}: every response raises ValueError")
-
-    def field_of(e):
-        """'x' when the (resolved) expression reads field x of a dict: d.get('x') / d['x']."""
-        if isinstance(e, ast.Call) and isinstance(e.func, ast.Attribute) and e.func.attr == "get" and len(e.args) == 1 and isinstance(e.args[0], ast.Constant):
-            return src(e.func.value), e.args[0].value
-        if isinstance(e, ast.Subscript) and isinstance(e.slice, ast.Constant):
-            return src(e.value), e.slice.value
-        return None
 
     vcalls = node_calls(gd, lambda c: call_name(c) == "self._verifyOpaque")
     ctx.check(bool(vcalls), "decode/verifies-opaque", qd, "decode() never calls self._verifyOpaque")
@@ -476,6 +497,9 @@ def check(ctx):
         ctx.check(ok, "decode/credential-args", where,
                   "DigestedCredentials is not built from (verified username, request method, realm, the verified field dict)")
 
+
+
+def _s_challenge(ctx, S):
     # ================= getChallenge + web wrapper ======================================================
     fc = ctx.func(CRED, "DigestCredentialFactory.getChallenge")
     qc = QF + ".getChallenge"
@@ -508,6 +532,9 @@ def check(ctx):
     ctx.check(src(dec[0].args[0]) == pw[1] and rsrc(dec[0].args[1], wd) == pw[2] + ".method", "web/decode-args", qw + ".decode",
               "the web wrapper does not pass (response, request.method, client address) to the cred factory")
 
+
+
+def _s_response(ctx, S):
     # ================= checkPassword / checkHash =======================================================
     dmod = ctx.mod(DIGEST)
     callees = {n: ctx.func(DIGEST, n) for n in ("calcHA1", "calcHA2", "calcResponse")}
@@ -598,7 +625,11 @@ def check(ctx):
             ctx.check(not none_sites, "check-never-raises/missing-field-hashed", ctx.construct(qm, "optional field fed to hash"),
                       f"a response without the field makes {meth} raise TypeError (update(None)) instead of failing the login: {'; '.join(none_sites[:2])}")
 
+
+
+def _s_rfc2617(ctx, S):
     # ================= RFC 2617 hash sequences in _digest.py ===============================================
+    callees = {n: ctx.func(DIGEST, n) for n in ("calcHA1", "calcHA2", "calcResponse")}
     def flatten(e):
         if isinstance(e, ast.BinOp) and isinstance(e.op, ast.Add):
             return flatten(e.left) + flatten(e.right)
@@ -651,9 +682,30 @@ def check(ctx):
         ctx.check({"pszNonceCount", "pszCNonce"} <= gs, "rfc2617/qop-part-guard", ctx.construct("twisted.cred._digest.calcResponse", uc),
                   "the nc:cnonce:qop part is hashed without both nc and cnonce being present")
 
+
+
+def _s_floors(ctx, S):
+    count = _count(S)
     ctx.floor("escape/raises-only-LoginFailed", count["raise"], 6, "raise statements")
     ctx.floor("escape/converted", count["raiser"], 3, "raising operations on client data")
     ctx.floor("escape/index-in-range", count["index"], 3, "constant subscripts of split results")
+
+
+def _s_memo(ctx, S):
+    why = ("the verdict depends on state that is not an argument (the clock via self._getTime(), the private key, the field dict): a memoised "
+           "or wrapped call answers from an earlier evaluation - e.g. a challenge verified once while fresh stays accepted after its lifetime")
+    body_always_entered(ctx, CRED, ["DigestCredentialFactory." + m for m in ("_verifyOpaque", "decode", "getChallenge", "_generateOpaque", "_generateNonce", "_getTime")] +
+                        ["DigestedCredentials.checkPassword", "DigestedCredentials.checkHash"], "memo/body-entered-on-every-call", "twisted.cred.credentials", why)
+    body_always_entered(ctx, WEB, ["DigestCredentialFactory.decode", "DigestCredentialFactory.getChallenge"], "memo/body-entered-on-every-call", "twisted.web._auth.digest", why)
+    # the pure digest helpers may be cached (their result depends on their arguments only), but not wrapped by anything else
+    body_always_entered(ctx, DIGEST, ["calcHA1", "calcHA2", "calcResponse"], "memo/body-entered-on-every-call", "twisted.cred._digest", why,
+                        allow={"lru_cache", "functools.lru_cache", "cache", "functools.cache"})
+
+
+def check(ctx):
+    run_sections(ctx, [("generator", _s_generator), ("verifyOpaque", _s_verify), ("agreement", _s_agreement), ("decode", _s_decode),
+                       ("challenge", _s_challenge), ("response", _s_response), ("rfc2617", _s_rfc2617), ("memoisation", _s_memo),
+                       ("floors", _s_floors)])
 
 
 _V = CRED
